@@ -115,7 +115,8 @@ fn c20_network(r: &mut Rng) -> String {
         11 => format!(
             "{}{}${}",
             if r.chance(1, 5) { "@@" } else { "" },
-            r.pick(&["ads/é", "/réclame-", "||x.com/é", "é*ads", "||müller.de/bü", "|https://x.com/ü|", "ü"]),
+            r.pick(&["ads/é", "/réclame-", "||x.com/é", "é*ads", "||müller.de/bü", "|https://x.com/ü|", "ü",
+                "||пример.рф^", "||例え例.jp^", "реклама/", "||ü.de/реклама^", "/広告/", "||пр.рф/a"]),
             r.pick(&[
                 "image", "script,subdocument", "script,subdocument,stylesheet", "subdocument", "document", "document,subdocument",
                 "image,subdocument,third-party", "frame,script", "xhr,font,media,css", "~image", "~subdocument", "1p", "3p,script,subdocument",
